@@ -97,7 +97,7 @@ func genHist(g *hx.Gen, forceTwoStep bool, a, b int) {
 		xor(b)
 	} else {
 		nsteps := r.Range(1, 20)
-		budget := 12000
+		budget := 8000
 		for i := 0; i < nsteps; i++ {
 			if rem := limit - pos; pos <= limit && rem < 6000 && !dead && r.Chance(6, 10) {
 				// close to the end of the keystream: small steps so that histories get there without panicking early
@@ -168,7 +168,7 @@ func genHist(g *hx.Gen, forceTwoStep bool, a, b int) {
 }
 
 func gen(g *hx.Gen) {
-	n := g.Count(3000, 60000)
+	n := g.Count(2000, 60000)
 	for i := 0; i < n; i++ {
 		genHist(g, false, 0, 0)
 	}
